@@ -87,6 +87,16 @@ def interpret():
                 env[tgt] = ('lang', env[v.func.value.id][1].strip_char(ch))
                 continue
             raise Undecided(f'assignment outside the transformer vocabulary: {s!r}')
+        # base, sep, suffix = x.partition(LITERAL): remembered for guards over the three names
+        if isinstance(st, ast.Assign) and len(st.targets) == 1 and isinstance(st.targets[0], ast.Tuple) and \
+                len(st.targets[0].elts) == 3 and all(isinstance(e, ast.Name) for e in st.targets[0].elts) and \
+                isinstance(st.value, ast.Call) and isinstance(st.value.func, ast.Attribute) and st.value.func.attr == 'partition' and \
+                isinstance(st.value.func.value, ast.Name) and env.get(st.value.func.value.id, ('?',))[0] == 'lang' and \
+                len(st.value.args) == 1 and isinstance(st.value.args[0], ast.Constant) and isinstance(st.value.args[0].value, str) \
+                and st.value.args[0].value and all(ch in SIGMA for ch in st.value.args[0].value):
+            names = [e.id for e in st.targets[0].elts]
+            env['#partition'] = ('partition', st.value.func.value.id, st.value.args[0].value, names)
+            continue
         if isinstance(st, ast.If) and not st.orelse and len(st.body) == 1:
             body = st.body[0]
             t = st.test
@@ -105,7 +115,7 @@ def interpret():
                     env.get(body.targets[0].id, ('?',))[0] == 'lang':
                 var = body.targets[0].id
                 L = env[var][1]
-                cond = condition_language(t, var, R)
+                cond = condition_language(t, var, R, env)
                 bv = body.value
                 if isinstance(bv, ast.BinOp) and isinstance(bv.op, ast.Add):
                     if isinstance(bv.left, ast.Constant) and isinstance(bv.right, ast.Name) and bv.right.id == var:
@@ -133,9 +143,26 @@ def interpret():
     return F, returns_none, notes, R
 
 
-def condition_language(t, var, R):
+def partition_language(sep, suffix_lang):
+    """{ x | x.partition(sep) = (base, sep, suffix), base non-empty, suffix in suffix_lang }: the
+    split is at the FIRST occurrence of sep, so base + sep must not contain an earlier occurrence."""
+    assert len(sep) == 2 and sep[0] == sep[1], 'only doubled-character separators are modelled'
+    ch = sep[0]
+    esc = '\\' + ch if not ch.isalnum() and ch != '_' else ch
+    contains = regex_to_dfa(f'^.*{esc}{esc}.*$')
+    ends = regex_to_dfa(f'^.*{esc}$')
+    base = DFA.all().minus(contains).minus(ends).minus(DFA.finite(['']))
+    return base.append_word(sep).concat(suffix_lang)
+
+
+def condition_language(t, var, R, env=None):
     """Language of strings for which the guard holds."""
     s = _src(t)
+    part = (env or {}).get('#partition')
+    if part is not None and part[1] == var:
+        _, _, sep, (b, sp, suf) = part
+        if s == f'{b} and {sp} and {suf}.isdigit()':
+            return partition_language(sep, regex_to_dfa('^[0-9]+$'))
     # x[0].isdigit()
     if s in (f'{var}[0].isdigit()', f'{var}[:1].isdigit()', f'{var}[0:1].isdigit()'):
         # x[0] on the empty string would raise; the slice form is simply False there - either way
